@@ -1,12 +1,14 @@
 package file
 
 import (
+	"context"
 	"net/mail"
 	"os"
 	"time"
 
 	"github.com/inbucket/inbucket/v3/pkg/config"
 	"github.com/inbucket/inbucket/v3/pkg/extension"
+	"github.com/inbucket/inbucket/v3/pkg/storage"
 	vrf "github.com/inbucket/inbucket/v3/pkg/zzvrf"
 )
 
@@ -37,12 +39,22 @@ func vrfFileRaceOnce(scn int, pre int) {
 		return
 	}
 	mk := func(tag string) *vrfIn {
+		d := time.Now()
+		if tag == "1" && scn == 4 {
+			d = time.Unix(1000, 0)
+		}
 		return &vrfIn{mailbox: "alpha", subject: "s" + tag, from: &mail.Address{Address: "f@x"},
-			to: []*mail.Address{{Address: "alpha"}}, date: vrfBase, src: []byte{'x', '\n'}}
+			to: []*mail.Address{{Address: "alpha"}}, date: d, src: []byte{'x', '\n'}}
 	}
 	id1, perr := st.AddMessage(mk("1"))
 	vrf.Assert("prelude-noerr", perr == nil)
 	vrf.Preemptions(pre)
+	if scn == 4 {
+		// every file-system mutation of the store is a scheduling point too: the other goroutine
+		// may run while this one is in the middle of an update, holding the mailbox lock
+		CrashHook = func(site, path string) { vrf.Yield() }
+		defer func() { CrashHook = nil }()
+	}
 	done := make(chan error, 2)
 	var idA, idB string
 	switch scn {
@@ -58,6 +70,12 @@ func vrfFileRaceOnce(scn int, pre int) {
 		}()
 	case 3:
 		go func() { done <- st.MarkSeen("alpha", id1) }()
+	case 4:
+		// a retention scan (period 1 h; m1 is dated 1970) against a delivery to the same mailbox
+		go func() {
+			rs := storage.NewRetentionScanner(config.Storage{RetentionPeriod: time.Hour}, st)
+			done <- rs.DoScan(context.Background())
+		}()
 	}
 	if scn == 3 {
 		go func() { done <- st.PurgeMessages("alpha") }()
@@ -116,5 +134,10 @@ func vrfFileRaceOnce(scn int, pre int) {
 		vrf.Assert("nothing-else", len(ms) == 3)
 	case 3:
 		vrf.Assert("purged-mailbox-empty", len(ms) == 0)
+	case 4:
+		p1, _ := has(id1)
+		pa, _ := has(idA)
+		vrf.Assert("expired-message-removed-by-the-scan", !p1)
+		vrf.Assert("delivered-message-not-lost", pa)
 	}
 }
